@@ -70,6 +70,7 @@ open Lungo.C20
 #print axioms Lungo.C20.push_slice_no_overflow
 #print axioms Lungo.C20.push_window_in_range
 #print axioms Lungo.C20.put_index_rejected
+#print axioms Lungo.C20.put_padding_rejected
 #print axioms Lungo.C20.put_index_guard
 #print axioms Lungo.C20.resolve_recursion_decreases
 #print axioms Lungo.C20.resolve_fuel_sufficient
